@@ -214,3 +214,17 @@ claim("C19", "other",
       "single-file pipeline run in a fresh interpreter with freshly loaded settings.",
       "Trusted: A-POOL, deepcopy, numpy/scipy determinism, the AST matcher.",
       "structural contract obligations (history independence by construction) + bounded runs of the real CLI", "DESIGN.md 5/C19")
+
+claim("C20", "other",
+      "Frame obligations discharged on the AST (may-alias ownership analysis with per-function summaries): none of the 14 plotting / summary "
+      "functions writes storage reachable from the HVSR object, the recordings, the mask or the keyword dictionaries passed in; every "
+      "DEFAULT_KWARGS entry is copied before a helper mutates it; no module-level state is written; plot_pre_and_post_rejection - the one "
+      "writer - saves copies of both masks and restores each from its own copy in a finally block, nothing writes the masks afterwards. "
+      "Routing obligations (structural): accepted / rejected curves come from valid_window and its complement, peak markers from valid_peak and "
+      "its complement, the mean / +-1 std curves, the mean-curve peak marker and the fn band are mean_curve, nth_std_curve(+-1), "
+      "mean_curve_peak and nth_std_fn_frequency(-+1) with distribution_mc / distribution_fn as stated, each option guards exactly its helper. "
+      "Bounded (labelled): the artists matplotlib actually holds (Agg) and the summary table (period row = lognormal median and log-std of "
+      "1/fn) equal the object's state for traditional / azimuthal / diffuse objects in random accept/reject states, deep snapshots around every "
+      "public function incl. the raising configuration.",
+      "Trusted: matplotlib, pandas, IPython.display; the alias analysis' tables; the AST matcher.",
+      "frame/ownership obligations by may-alias analysis + structural routing obligations + bounded inspection of rendered artists", "DESIGN.md 5/C20")
